@@ -450,6 +450,7 @@ def country_deviations(c, allow_gold):
     out.append(('cap', {'cap': True}))
     out.append(('bus=MO', {'bus': 'MO'}))
     out.append(('margin=.1', {'margin': 0.1}))
+    out.append(('margin=.2125', {'margin': 0.2125}))      # (a margin whose 3-decimal renderings do not add up to one)
     out.append(('alpha', {'a1': 0.7, 'a2': 0.3}))
     out.append(('G=step', {'G': 'Gstep'}))
     out.append(('ic', {'ic': True}))
